@@ -306,8 +306,13 @@ def counter(ctx):
         if ok:
             v = look(a[0][4])
             ok = payload_of(v) is not None and is_call(payload_of(v), "checked_add")
+            from .util import as_sum
+            if not ok and as_sum(v) is not None:
+                # `if n > u32::MAX - count { return Err(Overflow) } count += n`: the same sum behind an explicit guard
+                ok = True
+                ca = ("call", "plain-sum", as_sum(v))
             if ok:
-                ca = payload_of(v)
+                ca = payload_of(v) if payload_of(v) is not None and is_call(payload_of(v), "checked_add") else ca
                 x, y = look(ca[2][0]), look(ca[2][1])
                 okx = x[0] == "field" and x[3] == "in_flight_response_count"
                 oky = y[0] == "cast" and is_call(look(y[1]), "len") and same_vec(look(look(y[1])[2][0]), ret)
@@ -329,7 +334,8 @@ def counter(ctx):
         a = [e for e in lf.events if e[0] == "assign" and e[3] == "(*_1).in_flight_response_count"]
         for e in a:
             v = look(e[4])
-            good = payload_of(v) is not None and is_call(payload_of(v), "checked_add")
+            from .util import as_sum
+            good = (payload_of(v) is not None and is_call(payload_of(v), "checked_add")) or as_sum(v) is not None
             if lf.kind == "loop" or not good:
                 ctx.fail("R07.6", "read|stray-counter-write|%s" % lf.kind, "read() changes the in-flight counter other than by adding the number of requests it returns (%s path): %s" % (lf.kind, term_s(v)[:120]), fn.loc(e[1]))
     fe, le = leaves(ctx, CC + "enqueue_response")
